@@ -388,6 +388,8 @@ class MarkdownNormalizer(Renderer):
             with self.container(prefix, subsequent_indent):
                 rendered_item = self.render(child)
                 result.append(rendered_item)
+            # Once an item is rendered, the enclosing first-line prefix (e.g. an outer bullet) is used up.
+            self._prefix = self._second_prefix
 
         # Restore the previous list's tightness (for nested lists)
         self._current_list_tight = old_tight
